@@ -773,7 +773,25 @@ def replay_find(run, name, word, cands, accepted):
     run.inconclusive.append('%s: solver counterexample (word %s, candidates %s, accepted=%s) not reproduced on the real engine' % (name, shown, cands, accepted))
 
 
+def token_level(job):
+    """cases that execute the real find_move on *abstract tokens* (words as (kind, number) pairs)"""
+    return job[0] == 'FIND' or (job[0] == 'LOAD' and len(job) > 3 and job[3] == 'lists') or (job[0] == 'SESSION' and job[1] and job[1][0] == 'lists')
+
+
 def worker(run, job):
+    try:
+        worker_(run, job)
+    except Unsupported as e:
+        # a find_move that works on the bytes of the word cannot be executed on abstract tokens.  That is not a gap as long as
+        # the byte-level lemma FIND-BYTES decides find_move itself and the summarised LOAD/SESSION cases decide the rest
+        # (check() drops these notes only then).
+        if token_level(job) and 'TokV' in str(e):
+            run.inconclusive.append('NA-TOKEN-LEVEL %r: %s' % (job, e))
+        else:
+            raise
+
+
+def worker_(run, job):
     kind = job[0]
     if kind == 'PARSE':
         parse_case(run, job[1])
@@ -828,3 +846,12 @@ def check(run, replay=None):
     run.outside += ['stdin/stdout framing', 'the legal move set (C01) and make_move (C03) themselves', 'FEN parsing (C07)']
     run.stubs |= {'abstract tokens', 'boards and moves as uninterpreted terms in load_position', 'format!/Display/String byte-level model for to_notation'}
     run.parallel(worker, jobs)
+    na = [x for x in run.inconclusive if x.startswith('NA-TOKEN-LEVEL')]
+    if na:
+        rest = [x for x in run.inconclusive if not x.startswith('NA-TOKEN-LEVEL')]
+        findb_decided = sum(1 for q in run.queries if q['id'].startswith('FIND-BYTES/') and q['verdict'] in ('unsat', 'sat')) >= 4
+        if findb_decided and not any(('FINDB' in x or 'FIND-BYTES' in x) for x in rest):
+            run.inconclusive[:] = rest
+            run.outside.append('%d token-level cases (FIND, LISTS) not executed: find_move reads the bytes of the word on this tree; it is decided by FIND-BYTES, '
+                               'LOAD/SESSION with find_move summarised decide the rest' % len(na))
+            run.extra['token_level_cases_not_applicable'] = na
